@@ -105,11 +105,11 @@ def gen_cases(rng, tier, budget):
     else:
         for c in confs:
             for k in range(4):
-                sl = [s for j, s in enumerate(seqs) if len(s) < 3 or (j + k) % 6 == 0]
+                sl = [s for j, s in enumerate(seqs) if len(s) < 3 or (j + k) % 12 == 0]
                 for s in sl:
                     cases.append(c + " " + " ".join(warm(k) + s + ["sd0", "dl1:9", "dl0:9", "sd1", "dl0:9", "dl1:9"]))
     # (2) random walks
-    nwalk = budget or (700 if quick else 12000)
+    nwalk = budget or (1500 if quick else 12000)
     for _ in range(nwalk):
         pa, pb = rng.choice([(100, 200), (200, 100), (100, 100), (150, 100), (0, 0), (1, 0), (255, 254)])
         dec = rng.choice([0, 50, 50, 100, 300, 1])
@@ -162,6 +162,16 @@ def classify(case, impl, model):
     op = ops[i - 1] if 0 < i <= len(ops) else "<init>"
     if impl.startswith(("panic", "hang")):
         return "P", "implementation %s" % impl[:200]
+
+    def core(tok):   # state, effective priority, down count, IsActive of both nodes + published transitions
+        p = tok.split("|")
+        if len(p) != 3:
+            return tok
+        pick = lambda n: [n.split(",")[j] for j in (0, 1, 5, 6)] if n.count(",") == 6 else n
+        return (pick(p[0]), pick(p[1]), p[2])
+    if core(xi) == core(yi):
+        return "G", ("after step %d (%s) only the recorded peer view (peer priority/state, peer-known flag) differs: "
+                     "%s vs model %s" % (i, op, xi, yi))
     return "P", ("after step %d (%s) the pair is %s but the repaired model (for which the C10 theorems hold) says %s"
                  % (i, op, xi, yi))
 
